@@ -1,6 +1,7 @@
 from propcfg.common import COMMON_ASSUME
 
 CFG = {
+    "gen_items": ['Tables/behIdx', 'Tables/writeSuffix', 'Tables/readSuffixTable', 'Tables/readNoExtension'],
     "bin": "c03",
     "technique": "Lean 4 proof (layout = spec files, overwrite, frame, read∘write round trip) + differential correspondence",
     "level_text": "Theorems (all environments, names, values, old directory contents): write_to_layer_dir produces exactly the CNB "
